@@ -96,10 +96,21 @@ def _replace_with_quantised(
     # This workaround will suffice for now...
     args = [*node.args]
     kwargs = dict(node.kwargs)
-    if len(args) == 2:  # linear: `bias` omitted or passed by keyword
-        args.append(kwargs.pop("bias", None))
+    is_attention = node.target in (
+        F.scaled_dot_product_attention,
+        U.scaled_dot_product_attention,
+    )
+    # The three tensor operands may also be passed by keyword
+    # (TorchDynamo keeps the caller's argument style)
+    names = ("query", "key", "value") if is_attention else ("input", "weight", "bias")
+    for name in names[len(args) :]:
+        if name not in kwargs:
+            break
+        args.append(kwargs.pop(name))
+    if len(args) == 2:  # linear: `bias` omitted
+        args.append(None)
     extra_args = args[3:]
-    if node.target in (F.scaled_dot_product_attention, U.scaled_dot_product_attention):
+    if is_attention:
         # The quantised attention wrappers take everything after (query, key, value)
         # by keyword, so positional attn_mask / dropout_p / is_causal are renamed
         kwargs.update(zip(("attn_mask", "dropout_p", "is_causal"), extra_args))
